@@ -36,6 +36,29 @@
   event queue; they are reachable with `handle_intersections = false` on intersecting input (the
   documented precondition of that flag) and were never seen with the flag on.
 
+  SPAN / WINDING COHERENCE (Lemmas/SweepSafeCoh*.lean).  The three unproved sites are exactly the ones
+  that need the invariant `Coh`: every span live; number of spans = number of span-index increments
+  of the winding fold over the active list (= number of `in` gaps); total winding `out`; every merge
+  vertex inside an `in` region.  Proved, for every scalar type with agreeing on-edge tests:
+  * `scan_winding_spec`     what a successful scan computes in terms of the winding fold (`ScanSem`:
+                            `winding_before`, every span index handed out, the number of spans to end,
+                            when split / merge / merge-split events are signalled);
+  * `process_events_coherent` from a coherent state `process_events` has no reachable panic but the
+                            assertion; its result is described relative to the scanned state (`EvPost`);
+  * `coherence_after_event` if the winding is conserved at the vertex (`EventOkW`: the winding number
+                            right of the new edges = the winding number right of the edges that ended;
+                            no stray vertex) the new state is coherent again;
+  * `sweep_no_panic_clean_partial` a run whose EXECUTABLE certificate `cleanB` evaluates to `true`
+                            (no scan error, i.e. no recovery, and `EventOkW` at every event - both read
+                            off the run itself) does not panic.  On 8 400 recovery-free finite cases of the
+                            check's stream the certificate was `true` in every single one; it is `false`
+                            exactly on the runs that go through `recover_from_error` (and on non-finite
+                            input).  `_partial`: winding conservation is a property of the pointer-level
+                            event queue (every edge that starts at a vertex is in its sibling list, every
+                            edge that ends there is active) and is NOT proved for all inputs - it is the
+                            hypothesis, checkable per run; runs with a scan error are not covered (that
+                            is where the reachable panic lives).
+
   Theorems:
   * `sweep_no_structural_panic`  (all scalar types, no hypothesis) a run never ends in `mDead` or
                                  `mBelowIdx`; precisely: a panic message is one of the seven others;
@@ -48,6 +71,7 @@
   * `sweep_impl_…`, `sweep_curves_…`: the same for `tessellate_impl` on any queue / curved input.
 -/
 import LyonVerif.Lemmas.SweepSafeField
+import LyonVerif.Lemmas.SweepSafeCohRun
 import LyonVerif.Lemmas.SweepIdxZ
 import LyonVerif.Model.Tess.SweepCurves
 
@@ -56,7 +80,7 @@ set_option linter.unusedVariables false
 set_option linter.unusedSimpArgs false
 
 namespace Lyon.C01b
-open Lyon Lyon.Scalar Lyon.Mono Lyon.Sweep Lyon.EQ Lyon.SweepSafe
+open Lyon Lyon.Scalar Lyon.Mono Lyon.Sweep Lyon.EQ Lyon.SweepSafe Lyon.SweepCoh
 open Std.Do
 
 section allScalars
@@ -185,6 +209,48 @@ theorem process_intersection_no_panic (hUp : NextUpOk α) (tol : α) (n : Nat) (
 
 end allScalars
 
+/-! ### span / winding coherence -/
+
+section coherence
+variable {α : Type} [Scalar α] [Wide α]
+
+/-- **what a successful scan computes**, in terms of the winding fold `Wat s` over the active list -/
+theorem scan_winding_spec (s : St α) (scan : Scan) (h : scanActiveEdges s = .ok scan) :
+    ScanOk s scan ∧ ScanSem s scan := of_scan_both h
+
+/-- **the invariant after an event with conserved winding** -/
+theorem coherence_after_event {s0 s' : St α} {scan : Scan} {W : List Int} (hok : ScanOk s0 scan)
+    (hsem : ScanSem s0 scan) (hc : Coh s0) (hH : HorizAgree s0.tolerance) (hev : EventOkW s0 scan W)
+    (hN : NewSt s0 scan (Zf s0 scan W) W s') : Coh s' := coh_after hok hsem hc hH hev hN
+
+/-- **`process_events` on a coherent state**: the only panic it can reach is the assertion (none when
+`y < next_after(y)`); afterwards the state is the scanned state with the above-range replaced by the
+pending edges (`EvPost`), whatever the winding balance -/
+theorem process_events_coherent (hUp : NextUpOk α) (s1 : St α) (hc : Coh s1) (hH : HorizAgree s1.tolerance) :
+    ⦃fun s => ⌜s = s1⌝⦄ (processEvents : SM α (Option IErr)) ⦃safePost [] fun r s' => EvPost s1 r s'⦄ :=
+  processEvents_coh_at s1 hc hH (Or.inl hUp)
+
+/-- **A run with a clean certificate does not panic** (every scalar type with `y < next_after(y)` and
+agreeing on-edge tests).  `cleanB` is executable: it replays the loop and checks, at every event, that
+the scan succeeded and that the winding is conserved (`eventOkB`).  `_partial`: see the header. -/
+theorem sweep_no_panic_clean_partial (hUp : NextUpOk α) (entry : Entry) (rule : Slab.Rule) (horizontal : Bool)
+    (tol : α) (hH : HorizAgree (tol * half)) (handleIx : Bool) (subs : List (SubPath α))
+    (hB : cleanB entry rule horizontal tol handleIx subs = true) (w : String) :
+    (tessellate entry rule horizontal tol handleIx subs).1 ≠ some (.panic w) := by
+  intro h
+  have := tessellate_clean (A := []) entry rule horizontal tol handleIx subs hH (Or.inl hUp) hB _ h w rfl
+  cases this
+
+theorem sweep_impl_no_panic_clean_partial (hUp : NextUpOk α) (q : Queue α) (rule : Slab.Rule) (horizontal : Bool)
+    (tol : α) (hH : HorizAgree (tol * half)) (handleIx : Bool)
+    (hB : cleanRunB q rule horizontal tol handleIx = true) (w : String) :
+    (tessellateImpl q rule horizontal tol handleIx).1 ≠ some (.panic w) := by
+  intro h
+  have := tessellateImpl_clean (A := []) q rule horizontal tol handleIx hH (Or.inl hUp) hB _ h w rfl
+  cases this
+
+end coherence
+
 /-! ### ordered fields: the hypotheses hold -/
 
 section field
@@ -223,6 +289,18 @@ theorem sweep_no_panic_field_partial (fmin eps : K) (sqrt : K → K) (entry : En
   rw [sc_half]
   positivity
 
+/-- the clean-run theorem over every linearly ordered field -/
+theorem sweep_no_panic_clean_field_partial (fmin eps : K) (sqrt : K → K) (entry : Entry) (rule : Slab.Rule)
+    (horizontal : Bool) (tol : K) (htol : 0 ≤ tol) (handleIx : Bool) (subs : List (SubPath K))
+    (hB : @cleanB K _ (exactWide fmin eps sqrt) entry rule horizontal tol handleIx subs = true) (w : String) :
+    (@tessellate K _ (exactWide fmin eps sqrt) entry rule horizontal tol handleIx subs).1 ≠ some (.panic w) := by
+  let _ := exactWide fmin eps sqrt
+  refine sweep_no_panic_clean_partial (nextUpOk_exact fmin eps sqrt) entry rule horizontal tol ?_ handleIx subs hB w
+  apply horizAgree_field
+  show (0 : K) ≤ tol * (Scalar.ofSci 5 1)
+  rw [sc_half]
+  positivity
+
 end field
 
 /-! ### non-vacuity (kernel-evaluated on the exact integer instance `Z` of `Lemmas/SweepIdxZ.lean`) -/
@@ -241,6 +319,28 @@ example : ∃ (s : St Z) (scan : Scan), scanActiveEdges s = .ok scan ∧ scan.ab
             below := #[], spans := #[some Adv.new], pool := [], rule := .evenOdd, horizontal := false,
             tolerance := ⟨0⟩, handleIntersections := true, out := #[], nverts := 2 }, _, rfl, ?_, ?_⟩ <;>
   decide +kernel
+
+/-- the on-edge tests agree on the exact integer instance (for a non-negative threshold) -/
+theorem horizAgree_Z (t : Z) (ht : 0 ≤ t.v) : HorizAgree (α := Z) t := by
+  apply horizAgree_of_law
+  intro cur e h2 h3
+  have h2' : ¬ (e.maxX).v < cur.x.v := h2
+  have h3' : ¬ cur.x.v < (e.minX).v := h3
+  refine ⟨⟨show cur.x.v ≤ (e.maxX).v by omega, show (e.minX).v ≤ cur.x.v by omega⟩, ?_⟩
+  show ((⟨((cur.x.v - cur.x.v).natAbs : Int)⟩ : Z)).v ≤ (onEdgeThreshold t cur.x).v
+  have : ((cur.x.v - cur.x.v).natAbs : Int) = 0 := by simp
+  rw [this]
+  unfold onEdgeThreshold
+  show (0 : Int) ≤ (if t.v ≤ _ then _ else t).v
+  split <;> omega
+
+/-- non-vacuity of `sweep_no_panic_clean_partial`: the certificate of the triangle `(1,0) (0,2) (3,3)`
+evaluates to `true` in the kernel, and the other hypotheses hold on `Z` -/
+example :
+    cleanB (α := Z) .path .nonZero false ⟨1⟩ true [([pz 1 0, pz 0 2, pz 3 3], true)] = true := by
+  decide +kernel
+
+example : HorizAgree (α := Z) ((⟨1⟩ : Z) * half) := horizAgree_Z _ (by decide)
 
 /-- the panic branches are real: on a state WITHOUT spans (not a state the sweep reaches) a vertex
 event panics with a message of the residue -/
